@@ -258,12 +258,26 @@ def readField (t : Tables) (pieces : List Bytes) (name : Bytes) : Par Tables := 
     let data ← readItems name t.players offset
     pure { t with players := data }
 
-/-- `field.split('_')`: the first piece must be a known field, else the section is left unread -/
+/-- one value of a section that is skipped: `!buf.read_string()?.is_empty()` -/
+def skipStep (u : Unit) : Par (Unit × Bool) := do
+  let item ← readCStr
+  pure (u, !item.isEmpty)
+
+/-- a field there is no place for: its offset byte, then
+`while buf.remaining_length() != 0 && !buf.read_string()?.is_empty() {}` -/
+def skipField : Par Unit := do
+  let _ ← readU8
+  let rem ← remainingLength
+  loopBrk skipStep (rem + 1) ()
+
+/-- `field.split('_')`: the first piece must be a known field, else the whole section is skipped -/
 def afterName (t : Tables) (pieces : List Bytes) : Par Tables :=
   match pieces.head? with
   | none => Par.fail .packetBad
   | some name =>
-    if !knownFields.contains name then pure t
+    if !knownFields.contains name then do
+      skipField
+      pure t
     else readField t pieces name
 
 /-- from the field name on -/
